@@ -157,8 +157,10 @@ reg("C07", "proof",
     "validation_run callback (" + FRAME_NOTE + ").  By the bounded stand-in only: whole validation steps through the state "
     "machine, right-map production.",
     trusted=FRAME_TRUSTED + [
-        "assumed contract on AbstractCostVolumeConfidence.allocate_confidence_map (xarray drop_dims / DataArray construction): returns "
-        "its dataset arguments with a rebuilt confidence_measure variable whose last band is the map passed; other variables keep their arrays",
+        "contract on AbstractCostVolumeConfidence.allocate_confidence_map as seen at the call site: returns its dataset arguments with a "
+        "rebuilt confidence_measure variable whose last band is the map passed (the clause text is also a postcondition, "
+        "band_as_assumed_at_call_sites, of the PROVED contract of that function in contracts/confidence.py; the call site keeps the "
+        "assumed form because the proved contract is written per dataset structure)",
         "assumed contract: np.sum of a boolean 2-D family along axis 1 is >= 0 and is 0 iff no element holds",
         "numpy.rint is round-half-to-even on exact reals; astype(int) truncates"],
     assumptions=["a valid left pixel carries a finite disparity; the window offset fits twice in the image (mask_border's precondition)"])
@@ -192,10 +194,21 @@ reg("C10", "proof",
         "assumption: BilateralFilter.bilateral_kernel(windows, kernel, sigma_color, offset)[i, j] depends on windows[i, j, :, :] and "
         "the scalar arguments only (its values are checked by the bounded stand-in)"],
     assumptions=["filter_size is odd and not larger than the image (even sizes are rejected by check_conf: C05)"])
-other("C12", "frames of the four confidence_prediction methods and of the cost_volume_confidence_run callback proved: a band is "
-      "appended to the confidence variable of the cost volume / disparity datasets, the cost volume values, the images and the "
-      "existing arrays are not written (" + FRAME_NOTE + "); prange race-freedom of the kernels (C18); glue contract of the "
-      "callback (indicator suffix); the indicator values:", trusted=FRAME_TRUSTED)
+other("C12", "band bookkeeping proved on the real AbstractCostVolumeConfidence.allocate_confidence_map (the one function through "
+      "which every confidence method and cross-checking store their indicator), for every image size, band count and content, once "
+      "per structure of the two datasets (None / no confidence_measure yet / some bands: 9 cases): exactly one band is appended, "
+      "it is named confidence_from_<name> and holds the map passed, every earlier band and band name is kept in place, the cost "
+      "volume / disparity map / validity mask values and the row/col/disp coordinates are as before, and a disparity dataset "
+      "without bands takes over all the bands of the cost volume (numpy/xarray glue modelled: np.full, slice stores, np.copy, "
+      "np.append, drop_dims, xr.DataArray(coords, dims), label alignment of ds[k] = DataArray as an obligation; strings as "
+      "uninterpreted tokens with == only).  Frames of the four confidence_prediction methods and of the cost_volume_confidence_run "
+      "callback proved: the cost volume values, the images and the existing arrays are not written (" + FRAME_NOTE + "); prange "
+      "race-freedom of the kernels (C18); glue contract of the callback (indicator suffix); the indicator values:",
+      trusted=FRAME_TRUSTED + [
+          "xarray modelled positionally: drop_dims returns a dataset sharing the remaining variables; ds[k] = DataArray adds the "
+          "DataArray's coordinate for a dimension the dataset lacks and otherwise needs equal labels (obligation)",
+          "strings are uninterpreted tokens: 'confidence_from_' + name is a function of the two strings, nothing else is known of it "
+          "(fixed-width unicode truncation is outside the model: a change introducing it leaves the verified subset and is reported)"])
 other("C13", "criteria.validity_mask (flags of a pixel depend on its column, the interval and the image width only) proved; the "
       "functions that process an image in internal blocks are proved position-independent for every image size -- each output pixel "
       "is a function of its own window / cost column only, wherever the 100- or 50-pixel block boundaries fall: "
@@ -226,5 +239,5 @@ for _pid in ["C03", "C06", "C08", "C11", "C14", "C18"]:
     if _pid != "C18":
         PROPS[_pid]["explanation"] += "  Frames of the numpy/xarray drivers of this step: " + FRAME_NOTE + "."
 
-FIX_COMMITS = ['c8eaaa2', '39f21c5', '00e445f', 'cea0f99', '62af5fc', 'd016e8e', 'a2233a1', '3bbb417', 'bdac312', '35f4fa5', 'bcaad45', '42d03b2', 'fd4d6b2', '756db6e', 'abbd602', 'a62df76', 'bf98cec', '1944eb0', '9f9ea00']
+FIX_COMMITS = ['c8eaaa2', '39f21c5', '00e445f', 'cea0f99', '62af5fc', 'd016e8e', 'a2233a1', '3bbb417', 'bdac312', '35f4fa5', 'bcaad45', '42d03b2', 'fd4d6b2', '756db6e', 'abbd602', 'a62df76', 'bf98cec', '1944eb0', '9f9ea00', 'f945bb8']
 NOT_YET = {}
